@@ -468,7 +468,30 @@ ADDENDA3 = {
             "included) are validated alone and in company and mixed into generated runs."),
     "C02": ("; the un-budgeted pvl.loads runs under a CPU-time limit", ""),
 }
-for _k, (_a, _b) in list(ADDENDA2.items()) + list(ADDENDA3.items()):
+ADDENDA4 = {
+    "C01": ("", " Modules are also handed over as plain dict / OrderedDict / read-only mapping "
+            "(names unique at the top level); ints beyond the range of a C double."),
+    "C05": ("; single faults again with the text handed to pvl.load() as a binary stream, "
+            "a two-byte character across the 8192-byte block boundary in front of them", ""),
+    "C06": ("; documented decoder options (real_cls=Decimal, a substitute quantity_cls) as "
+            "parser configurations over extreme numerals in every statement context", ""),
+    "C07": ("", " Pool texts hold strings with the other quote character that are longer than "
+            "half a line / a line, have a control character, or sit in a sequence."),
+    "C09": ("", " The product file lies under eight different names (blanks, non-ASCII "
+            "letters, '%', '#', '+', sub-directories) - what a file: URL has to quote."),
+    "C13": ("; one case in three turns every frozenset of the module into a mutable set", ""),
+    "C14": ("", " Encode direction includes offsets beyond ODL's +-12 h (written faithfully "
+            "or refused)."),
+    "C15": ("; the same clause through pvl.load() of bytes (binary stream, path) with the "
+            "character across / at / before bytes 8192 and 16384 and three kinds of tail", ""),
+    "C16": ("; instances handed to pvl.loads / pvl.dumps together with grammar= / decoder= of "
+            "another dialect, then used alone again", ""),
+    "C17": ("; every curated text also as a Token returned by Token.split / strip / lstrip / "
+            "rstrip / replace", ""),
+    "C19": ("; every third text also as bytes to both loaders (UTF-8, data behind END, "
+            "Latin-1, a stray undecodable byte at five positions)", ""),
+}
+for _k, (_a, _b) in list(ADDENDA2.items()) + list(ADDENDA3.items()) + list(ADDENDA4.items()):
     _o = ADDENDA.get(_k, ("", ""))
     ADDENDA[_k] = (_o[0] + _a, _o[1] + _b)
 
